@@ -19,6 +19,7 @@ package vm
 import (
 	"context"
 	"errors"
+	"math"
 
 	"github.com/ethereum/go-ethereum/common"
 	"github.com/ethereum/go-ethereum/core/types"
@@ -944,7 +945,8 @@ func opReferenceChangeJournal(ctx context.Context, pc *uint64, interpreter *EVMI
 			return 0, errors.New("storage encoding error")
 		}
 
-		if !length.IsUint64() {
+		// the number of data slots is rounded up in uint64 arithmetic: keep it from wrapping around
+		if !length.IsUint64() || length.Uint64() > math.MaxUint64-31 {
 			return 0, errors.New("storage too large to load")
 		}
 
